@@ -205,7 +205,7 @@ pub fn check(sc: &CScenario) -> CaseResult {
     Ok(CaseOk {
         nontrivial: outstanding_max >= 3 && reordered && late_or_stray > 0,
         classes,
-        excluded_known: 0,
+        excluded_known: run.excluded_known,
     })
 }
 
